@@ -117,9 +117,11 @@ def embed_3d_via_rdkit(mol_graph):
     conf = rdkit_mol.GetConformer()
 
     # write the positions to the original molecule graph
-    for ndx, atom in enumerate(rdkit_mol.GetAtoms()):
+    # the atoms of the rdkit molecule have been created in the order of
+    # the nodes of the graph, which need not be the order of the node keys
+    for node, atom in zip(mol_graph.nodes, rdkit_mol.GetAtoms()):
         pos = conf.GetAtomPosition(atom.GetIdx())
-        mol_graph.nodes[ndx]['position'] = np.array([pos.x, pos.y, pos.z])
+        mol_graph.nodes[node]['position'] = np.array([pos.x, pos.y, pos.z])
 
     return mol_graph
 
